@@ -10,7 +10,7 @@ ID = "C34"
 THEOREMS = ["C34_flagged_shape", "C34_effect_free_pure", "C34_removable_partial", "C34_removable_root_partial",
             "C34_removable_nested_partial",
             "C34_removable_fallible_root_partial", "C34_object_refuted", "C34_call_arg_refuted",
-            "C34_coalesce_refuted", "C34_closure_stale_refuted", "C34_example"]
+            "C34_coalesce_refuted", "C34_closure_stale_refuted", "C34_short_circuit_refuted", "C34_example"]
 IMPORTS = ("From Coq Require Import List ZArith String.\n"
            "From VRL Require Import Base.Bytes Base.Value Base.Lit Model.Expr Model.Unused Corr.Core Corr.C34.\n"
            "Local Open Scope string_scope.")
@@ -26,9 +26,10 @@ MANIFEST = {
             "variables untouched; deleting any set of effect-free infallible non-last statements of any blocks preserves the run; "
             "at every flagged position (any depth) whose flagged expression has effect-free infallible children the statement can "
             "be deleted (root-level fallible variant: a successful run is preserved). The full property is FALSE on the pinned tree: refutation witnesses for flagged objects / calls whose "
-            "children assign or delete (D10), flagged `f!()` calls under `??`, and literals flagged after a closure call although "
-            "their value is used. The oracle deletes every flagged span from the source text, recompiles and compares runs.",
-    "note": "Partial: the removal theorems need the flagged expression's children to be effect-free (the three refuted classes "
+            "children assign or delete (D10), flagged `f!()` calls under `??`, literals flagged after a closure call although "
+            "their value is used, and the value of the left operand of `||`/`&&`/`??` flagged although it decides whether the "
+            "right operand's effects happen. The oracle deletes every flagged span from the source text, recompiles and compares runs.",
+    "note": "Partial: the removal theorems need the flagged expression's children to be effect-free (the four refuted classes "
             "are recorded in known_findings/C34.json); positions other than statements (array elements, operands) are covered by "
             "the oracle only. Unused-variable warnings are outside the property. Template strings, `else if`, named arguments and "
             "functions outside the evaluator's instance are not generated. Trusted: Coq kernel + vm_compute, hand models "
@@ -461,6 +462,33 @@ def under_catch(ast, pos):
     return False
 
 
+def decides_short_circuit(ast, pos):
+    """the flagged expression is (through groups, `!` and last statements of blocks only) the value of the left operand
+    of `||`, `&&` or `??` whose right operand has side effects: its value decides whether those effects happen"""
+    kids = ast
+    chain = []
+    for i in pos:
+        cur = kids[i]
+        chain.append((cur, i))
+        kids = children(cur)
+    # chain[d] = (node at depth d, its index in its parent); look for an op ancestor entered through operand 0
+    for d in range(len(chain) - 1):
+        node = chain[d][0]
+        if node[0] == "op" and node[1] in ("or", "and", "err") and chain[d + 1][1] == 0 and has_effect(node[3]):
+            ok = True
+            for k in range(d + 1, len(chain) - 1):
+                par, idx = chain[k][0], chain[k + 1][1]
+                if par[0] in ("group", "not"):
+                    continue
+                if par[0] == "block" and idx == len(par[1]) - 1:
+                    continue
+                ok = False
+                break
+            if ok:
+                return True
+    return False
+
+
 class Vis:
     """the visitor, re-implemented only to name the stale-state class precisely: with restore=True the
     closure branch of visit_function_call puts the level's previous expectation back"""
@@ -597,6 +625,8 @@ def classify(case, d, stale):
         return "bang-call-under-catch"
     if pos in stale:
         return "stale-after-closure"
+    if decides_short_circuit(case["ast"], pos):
+        return "short-circuit-operand"
     return None
 
 
